@@ -29,13 +29,13 @@ St0 == [deleg |-> [d1 |-> [v1 |-> 2, v2 |-> 0], d2 |-> [v1 |-> 1, v2 |-> 1], c1 
         ubd   |-> [d \in McD |-> [v \in McV |-> <<>>]],
         red   |-> [d \in McD |-> <<>>],
         rew   |-> [d1 |-> [v1 |-> 2, v2 |-> 0], d2 |-> [v1 |-> 0, v2 |-> 3], c1 |-> [v1 |-> 0, v2 |-> 1]],
-        bal   |-> [d1 |-> 3, d2 |-> 2, c1 |-> 2, bonded |-> 5, notbonded |-> 0, distr |-> 7, fc |-> 0]]
+        bal   |-> [d1 |-> 3, d2 |-> 1, c1 |-> 2, bonded |-> 5, notbonded |-> 0, distr |-> 7, fc |-> 0]]
 
 NoLast == [kind |-> "none"]
 
 Init ==
   /\ st = St0 /\ now = 0 /\ nops = 0 /\ nacc = 0 /\ last = NoLast /\ logs = <<>>
-  /\ (Witness => \A i \in 1..21 : TLCSet(i, FALSE))
+  /\ (Witness => \A i \in 1..22 : TLCSet(i, FALSE))
 
 NoOp == [m |-> "-", v |-> "-", src |-> "-", to |-> "-", act |-> "-", md |-> "-", signer |-> "-", chain |-> "-", tamper |-> "-", amt |-> 0]
 
@@ -82,6 +82,7 @@ Step(route, o, c, op) ==          \* o = transaction origin (an EOA), c = immedi
                        /\ ((e.ok /\ c = "c1") => TLCSet(17, TRUE))
                        /\ ((IsSigned(op) /\ ~ValidSigned(op, c)) => TLCSet(18, TRUE))
                        /\ (RelayedByOrigin(op, c, o) => TLCSet(21, TRUE))
+                       /\ ((op.m = "transfer" /\ e.ok /\ op.amt > st.bal[c]) => TLCSet(22, TRUE))
                        /\ ((e.ok /\ Len(e.st.red[c]) > 0 /\ Len(st.red[c]) > 0) => TLCSet(19, TRUE)))
   /\ nops' = nops + 1
   /\ UNCHANGED <<now, nacc>>
@@ -156,8 +157,9 @@ SupplyConserved == [][(IsOp \/ last'.kind = "tick") => Total(CF, st') = Total(CF
 
 (* Vacuity guard (single-worker run with Witness = TRUE): every method succeeds on both routes, a contract
    caller succeeds, a forged message occurs, a second redelegation entry and a maturing entry occur,
-   a message of delegator = signer = tx origin is relayed by the contract (21). *)
+   a message of delegator = signer = tx origin is relayed by the contract (21),
+   a transfer() succeeds that only the rewards it claims pay for (22). *)
 WitnessAll ==
-  LET missing == {i \in 1..21 : TLCGet(i) # TRUE} IN
+  LET missing == {i \in 1..22 : TLCGet(i) # TRUE} IN
   IF missing = {} THEN TRUE ELSE Print(<<"WITNESS MISSING", missing>>, FALSE)
 =============================================================================
